@@ -346,6 +346,9 @@ def eval_unstructured(ctx, batch, tmpdir):
     for whole, pieces, tags, via in batch:
         case = {"kind": "merge", "via": via, "whole": whole, "pieces": pieces}
         f3 = is_f3(pieces)
+        if canon(oracle_merge(pieces)) != canon(whole):
+            ctx.inconsistent(case, "generator: the pieces are not a splitting of the whole data set", "oracle_merge(pieces) == whole")
+            continue
         try:
             if via == "mem":
                 res = impl_merge_mem(pieces)
@@ -412,10 +415,42 @@ def eval_unstructured(ctx, batch, tmpdir):
                           what="merged pieces differ from the whole data set but the comparator passes")
 
 
+def oracle_merge(pieces):
+    """what merging MEANS, written directly: points identified by their coordinates, every cell of every piece once"""
+    out = {"dim": pieces[0]["dim"], "points": [], "cells": [], "pf": [copy.deepcopy(dict(f, v=[])) for f in pieces[0]["pf"]],
+           "cf": []}
+    index = {}
+    for p in pieces:
+        loc = []
+        for i, x in enumerate(p["points"]):
+            k = point_key(x)
+            if k not in index:
+                index[k] = len(out["points"])
+                out["points"].append(list(x))
+                for f, g in zip(out["pf"], p["pf"]):
+                    rs = meshgen._rowsize(g["tail"])
+                    f["v"] = f["v"] + g["v"][i * rs:(i + 1) * rs]
+            loc.append(index[k])
+        for t, rows in p["cells"]:
+            blk = [b for b in out["cells"] if b[0] == t]
+            if not blk:
+                out["cells"].append([t, []])
+                blk = [out["cells"][-1]]
+            blk[0][1].extend([[loc[q] for q in r] for r in rows])
+            for g in p["cf"]:
+                if g["ctype"] != t:
+                    continue
+                tgt = [f for f in out["cf"] if f["name"] == g["name"] and f["ctype"] == t]
+                if tgt:
+                    tgt[0]["v"] = tgt[0]["v"] + g["v"]
+                else:
+                    out["cf"].append(copy.deepcopy(g))
+    return out
+
+
 def shrink_unstructured(ctx, v):
-    """drop fields, then try fewer pieces (merging neighbours in listing order is not content-preserving for the
-    defect classes we look for, so only trailing/leading pieces whose removal keeps the failure are dropped — the
-    whole is rebuilt as the merge oracle of the remaining pieces is not available; we therefore only strip fields)"""
+    """strip the fields, then drop pieces one at a time (the whole data set is rebuilt from the remaining pieces by
+    `oracle_merge`) as long as the in-memory merge still differs from the whole"""
     case = v["case"]
     if case.get("kind") != "merge" or case.get("via") != "mem":
         return v
@@ -437,12 +472,27 @@ def shrink_unstructured(ctx, v):
         if fails(w2, p2):
             best = (w2, p2)
             break
+    changed = True
+    while changed and len(best[1]) > 2:
+        changed = False
+        for i in range(len(best[1]) - 1, -1, -1):
+            ps = best[1][:i] + best[1][i + 1:]
+            try:
+                w2 = oracle_merge(ps)
+            except Exception:  # noqa: BLE001
+                continue
+            if fails(w2, ps):
+                best = (w2, ps)
+                changed = True
+                break
     if best[0] is not whole:
         try:
             impl = diff_summary(canon(meshgen.from_fc(impl_merge_mem(best[1]))), canon(best[0]))
         except Exception as e:  # noqa: BLE001
             impl = f"exception {type(e).__name__}: {e}"
-        return dict(v, case=dict(case, whole=best[0], pieces=best[1]), impl=impl)
+        return dict(v, case=dict(case, whole=best[0], pieces=best[1]), impl=impl,
+                    **({"class": "F3"} if v.get("class") == "F3" and is_f3(best[1]) else
+                       ({"class": None} if v.get("class") == "F3" else {})))
     return v
 
 
@@ -850,8 +900,8 @@ def run(ctx):
     tmpdir = tempfile.mkdtemp(prefix="fcv_c06_")
     try:
         # ---- unstructured
-        n_mem = ctx.scale(260, 20000)
-        n_file = ctx.scale(60, 5000)
+        n_mem = ctx.scale(260, 10000)
+        n_file = ctx.scale(60, 2000)
         batch = []
         for i in range(n_mem + n_file):
             whole, pieces, tags = gen_partition(rng, max_cells=rng.choice([2, 3, 3, 4]) if i % 7 else 5)
@@ -872,8 +922,8 @@ def run(ctx):
             for shape in itertools.product(range(1, maxn + 1), repeat=dim):
                 for decomp in itertools.product(*[compositions(n) for n in shape]):
                     pool.append((shape, decomp))
-        n_sf = ctx.scale(150, len(pool) * 3)
-        chosen = [rng.choice(pool) for _ in range(n_sf)] if ctx.tier == "quick" else pool * 3
+        n_sf = ctx.scale(150, len(pool) * 2)
+        chosen = [rng.choice(pool) for _ in range(n_sf)] if ctx.tier == "quick" else pool * 2
         cases = []
         for i, (shape, decomp) in enumerate(chosen):
             fmt = ["vti", "vtr", "vts"][i % 3]
